@@ -338,7 +338,7 @@ pub fn checks() -> Vec<CheckSpec> {
             CLIENT_REAL, CLIENT_STUB,
             &["stalls are finite", "tokio timers wake their registrant"]),
         spec("C03", "fault_enumeration",
-            vec![gen("client.abandon", 6, g_client_abandon), gen("client.general", 2, g_client_general), gen("client.shutdown", 2, g_client_shutdown), gen_x("client.general+abandon-enum", 1, g_client_general, expand_abandon)],
+            vec![gen("client.abandon", 6, g_client_abandon), gen("client.general", 2, g_client_general), gen("client.shutdown", 2, g_client_shutdown), gen_x("client.general+abandon-enum", 1, g_client_general, expand_abandon), gen("client.long", 1, g_client_long)],
             q, t,
             "abandonment before first poll / after k polls / at a time / when the request is on the wire / when a reply is queued / when the reply was read, crossed with capacity 1-3, buffer 1-3, stalled sink; preemption inside the guard's Drop (hook H2); per-id sink sequence and the cancel obligation at idle points",
             CLIENT_REAL, CLIENT_STUB, &[]),
